@@ -114,7 +114,11 @@ class BoolCFGLM(LM):
             AssertionError: If context contains out-of-vocabulary tokens
         """
         assert set(context) <= self.V, f"OOVs detected: {set(context) - self.V}"
-        p = self.model.next_token_weights(self.model.chart(context)).trim()
+        if isinstance(self.model, LM):
+            # alg="cky": the next-token weights come from CKYLM's incremental parser
+            p = self.model.model.p_next(tuple(context)).trim()
+        else:
+            p = self.model.next_token_weights(self.model.chart(context)).trim()
         return Float.chart({w: 1 for w in p})
 
     def __call__(self, context):
